@@ -8,4 +8,4 @@ Extraction "Extract/m_conc.ml"
   Conc.as_cp Conc.as_ev Conc.as_notes Conc.as_init Conc.as_blob Conc.writes_of Conc.log Conc.view Conc.lost
   Conc.ai_dir Conc.storage_file Conc.interleavings
   GenConc.append_checkpoint_locked GenConc.append_event_locked GenConc.notes_add_locked
-  GenConc.post_commit_refresh_locked GenConc.rewrite_errors_swallowed GenConc.max_events GenConc.blob_rewritten_in_place.
+  GenConc.post_commit_refresh_locked GenConc.rewrite_errors_swallowed GenConc.max_events GenConc.blob_rewritten_in_place GenConc.post_commit_resets_new_log.
